@@ -83,6 +83,17 @@ func NewStore() (SUT, error) {
 	return &storeSUT{s: s, cancel: cancel}, nil
 }
 
+// NewStoreLateRun returns the store with its event publisher NOT yet running; start() runs it. Between a
+// commit and the publisher picking the event up there is always a gap; this makes the gap deterministic.
+func NewStoreLateRun() (SUT, func(), error) {
+	s, err := inmem.NewStore()
+	if err != nil {
+		return nil, nil, err
+	}
+	ctx, cancel := context.WithCancel(context.Background())
+	return &storeSUT{s: s, cancel: cancel}, func() { go s.Run(ctx) }, nil
+}
+
 func (b *storeSUT) Read(_ context.Context, _ storage.ReadConsistency, id *pbresource.ID) (*pbresource.Resource, error) {
 	return b.s.Read(id)
 }
